@@ -52,10 +52,14 @@ def with_estimates(case, nkeys=12):
     if len(keys) > 24:      # never more than 24 estimate reads per insert (the history would grow quadratically)
         keys = keys[:12] + keys[-12:]
     out = [lines[0]]
+    n_ins = sum(1 for l in lines[1:] if l.startswith("I "))
+    seen = 0
     for l in lines[1:]:
         if l.startswith("I "):
-            for k in keys:
-                out.append(f"Q {k}")
+            seen += 1
+            if seen > n_ins - 60:       # only the last 60 inserts (a long fill phase is uncontended anyway)
+                for k in keys:
+                    out.append(f"Q {k}")
         out.append(l)
     return (name, out)
 
@@ -121,6 +125,8 @@ def gen_cases(pid, rng, tier, kinds):
             cases += [gen.gen_skip_case(rng, kind, 8000 + i) for i in range(60 if tier == "quick" else 600)]
         if pid in ("C07", "C03", "C05", "C01"):
             cases += [gen.gen_reinsert_case(rng, kind, 8500 + i) for i in range(60 if tier == "quick" else 600)]
+        if pid in ("C16", "C05", "C06", "C01", "C07", "C03"):
+            cases += gen.gen_window_grid(kind)
         if pid in ("C16", "C05", "C06", "C01", "C07"):
             cases += [gen.gen_window_case(rng, kind, 8700 + i) for i in range(50 if tier == "quick" else 500)]
         if pid in ("C03", "C04", "C12", "C05", "C10", "C16", "C01"):
@@ -139,8 +145,11 @@ def gen_cases(pid, rng, tier, kinds):
         if pid in ("C03", "C05", "C06", "C08", "C10", "C11", "C01", "C16"):
             nme = extra // 2 if pid not in ("C05", "C06") else (extra * 8 if kind == "unsync" else extra * 2)
             cases += [gen.gen_mass_expiry(rng, kind, 9000 + i, 100 if kind == "unsync" else 500) for i in range(nme)]
-        if pid in ("C08", "C13", "C10"):
-            cases += [gen.gen_bigsketch(rng, kind, 9500 + i) for i in range(extra // 2)]
+        if pid in ("C08", "C13", "C10", "C14"):
+            bs = [gen.gen_bigsketch(rng, kind, 9500 + i) for i in range(extra // 2 if pid != "C13" else extra * 2)]
+            if pid == "C13":
+                bs = [with_estimates(sync_every_op(c) if kind == "sync" else c) for c in bs]
+            cases += bs
         if pid in ("C08", "C09", "C10") and kind == "sync":
             cases += [gen.gen_burst(rng, 9700 + i) for i in range(extra)]
     if pid == "C08":
@@ -169,8 +178,9 @@ CHECKS = {
     "C01": dict(oracle=lookups(("val",)), proj="cells", corpus=["c01"]),
     "C03": dict(oracle=O.oracle_no_loss, proj="counters", corpus=["c03", "c10"]),
     "C04": dict(oracle=O.oracle_capacity, proj="counters", corpus=["c04", "c10"]),
-    "C05": dict(oracle=lookups(("val", "ttl")), proj="cells", corpus=["c05"]),
-    "C06": dict(oracle=lookups(("val", "tti")), proj="cells", corpus=["c06", "c03"]),
+    # (an update or a read that fails to restart the interval shows as a live entry missing: the no-loss oracle)
+    "C05": dict(oracle=both(lookups(("val", "ttl")), O.oracle_no_loss), proj="cells", corpus=["c05"]),
+    "C06": dict(oracle=both(lookups(("val", "tti")), O.oracle_no_loss), proj="cells", corpus=["c06", "c03"]),
     "C07": dict(oracle=both(lookups(("val",)), O.oracle_no_loss), proj="cells", corpus=["c07", "c03"]),
     "C08": dict(oracle=O.oracle_safety, proj="safety", corpus=["c08", "c10", "c03"]),
     "C10": dict(oracle=O.oracle_counters, proj="counters", corpus=["c10", "c03"]),
